@@ -30,6 +30,11 @@ def formulas(tier):
     return f
 
 
+# spline bases go through np.percentile / FITPACK: concrete float data, exact float comparison (rows are
+# evaluated independently and the knots are order statistics, so permuting rows must not change a bit)
+CONCRETE = ["y ~ bs(x, df=4)", "y ~ bs(x, df=6, degree=2) + f", "y ~ (bs(x, df=5)|g)", "y ~ bs(x, df=7, intercept=True):f"]
+
+
 TRANSFORMS_Q = ["perm:reverse", "perm:rotate", "perm:scramble", "index:shuffled", "index:dup", "index:str", "index:float", "cols:reversed", "unused:nan", "unused:one", "na+index:dup"]
 
 
@@ -41,6 +46,9 @@ def cases(tier):
                 continue
             for tr in TRANSFORMS_Q + (["perm:all4"] if tier != "quick" else []):
                 out.append((f, fv, tr))
+    for f in CONCRETE:
+        for tr in ("perm:reverse", "perm:scramble", "perm:rotate", "index:dup", "cols:reversed"):
+            out.append((f, "str", tr))
     if tier != "quick":
         from vf.props import c04
 
@@ -86,7 +94,7 @@ def fitted(dm):
                 c = stack.pop()
                 st = getattr(c, "stateful_transform", None)
                 if st is not None:
-                    for a in ("mean", "std"):
+                    for a in ("mean", "std", "_knots"):
                         if getattr(st, a, None) is not None:
                             out.append((str(c), a, getattr(st, a)))
                 stack += [a for a in getattr(c, "args", []) if hasattr(a, "args")]
@@ -123,7 +131,8 @@ def harness(env, case):
 
     formula, flavour, tr = case
     vars_ = gen.used_vars(formula)
-    df, rows = gen.build_frame(env, vars_, flavour, "sorted", min_rows=5)
+    concrete = formula in CONCRETE
+    df, rows = gen.build_frame(env, vars_, flavour, "sorted", min_rows=12, concrete=concrete) if concrete else gen.build_frame(env, vars_, flavour, "sorted", min_rows=5)
     n = len(df)
     ns = {"lv": [2, 3, 1], "less": _less}
     if "z" in df:
@@ -140,7 +149,7 @@ def harness(env, case):
         vals[1] = float("nan")
         base[col] = pd.Series(vals, dtype=object if env.mode == "sym" else float)
     try:
-        with env.running():
+        with env.running(not concrete):
             dm0 = design_matrices(formula, base, extra_namespace=ns)
     except symx.PathEnd:
         raise
@@ -177,7 +186,7 @@ def harness(env, case):
         variants.append((d2, None))
     for d2, p in variants:
         try:
-            with env.running():
+            with env.running(not concrete):
                 dm1 = design_matrices(formula, d2, extra_namespace=ns)
         except symx.PathEnd:
             raise
@@ -209,7 +218,7 @@ def run(tier, seed):
     rep.bounds = {"formulas": len(formulas(tier)), "cases": len(cs),
                   "transformations": "row reversal / rotation / scramble (with and without reset_index)" + (", all 23 non-identity permutations of the first 4 rows" if tier != "quick" else "") + "; index: shuffled ints, duplicate labels, strings, floats; reversed column order; added unused columns (one with NaN); NaN in a used column + duplicate index",
                   "frames": "complete factorial of used categoricals (>= 5 rows), numeric cells z3 reals"}
-    rep.outside = ["bs(): knot placement by np.percentile and splev need concrete data (DESIGN section 6)", "floating point: order-dependent rounding of sums is outside the claim (reals)"]
+    rep.outside = ["bs(): knot placement by np.percentile and splev need concrete data: four bs formulas run on concrete float frames with exact float comparison, the solver only compares constants there", "floating point: order-dependent rounding of sums is outside the claim (reals)"]
     rep.stubs = pipe.STUBS
     rep.assumptions = ["std != 0 (definedness of scale)"]
     rep.rule = "one case = (formula, flavour, transformation): two real runs compared as z3 terms; non-trivial = both designs built"
